@@ -46,7 +46,8 @@ uint32_t cop_serialize_value(const NanoValue *val, uint8_t *buf, uint32_t buf_si
             s = val->as.string->data;
             len = val->as.string->length;
         }
-        if (pos + 4 + len > buf_size) return 0;
+        /* overflow-safe form of: pos + 4 + len > buf_size */
+        if (buf_size - pos < 4 || len > buf_size - pos - 4) return 0;
         memcpy(buf + pos, &len, 4);
         pos += 4;
         if (len > 0) {
@@ -121,7 +122,7 @@ uint32_t cop_deserialize_value(const uint8_t *buf, uint32_t buf_size,
         uint32_t len;
         memcpy(&len, buf + pos, 4);
         pos += 4;
-        if (pos + len > buf_size) return 0;
+        if (len > buf_size - pos) return 0;  /* pos + len may wrap around */
         VmString *s = vm_string_new(heap, (const char *)(buf + pos), len);
         pos += len;
         *out = val_string(s);
